@@ -40,6 +40,7 @@ type JobOpts struct {
 	EarlyWait bool `json:"early_wait"`
 	// EagerDeliver: events are delivered as soon as the catch events they address listen
 	EagerDeliver bool `json:"eager_deliver"`
+	EagerAnswer  bool `json:"eager_answer"`
 }
 
 type Job struct {
@@ -79,6 +80,7 @@ func (o JobOpts) driveOptsFor(run int) drive.Options {
 	d := o.driveOpts()
 	d.EarlyWait = o.EarlyWait && run%2 == 0
 	d.EagerDeliver = o.EagerDeliver
+	d.EagerAnswer = o.EagerAnswer
 	switch {
 	case o.LingerMs > 0:
 		d.Linger = time.Duration(o.LingerMs) * time.Millisecond
